@@ -21,7 +21,7 @@
                          on a load / store / la
      plain_entry e       a label entry, or a body entry with a plain body
      ninsn l             number of instruction entries of l (body_is_instruction)
-     grouped text        the entries of one source line are adjacent
+     grouped text        the entries of one source line are adjacent (see grouped_spec)
      declares inl pre ln e name   entry (ln, e), preceded by the entries pre, is the stand-alone
                          label name, or the FIRST entry of a source line with in-line label name
      rv_labels text inl 0 [] None      the label table (_process_labels); inl maps line -> label
@@ -77,6 +77,13 @@ Theorem label_denotes_next : forall text inl labels,
                            a = 4 * Z.of_nat (ninsn pre)).
 Proof. exact label_denotes_next_lem. Qed.
 Print Assumptions label_denotes_next.
+
+(* [grouped] in words: between two entries of one source line there are only entries of that
+   line (adjacent_lines text := forall pre ln e mid e' post,
+   text = pre ++ (ln, e) :: mid ++ (ln, e') :: post -> Forall (fun x => fst x = ln) mid) *)
+Theorem grouped_spec : forall text, grouped text <-> adjacent_lines text.
+Proof. exact grouped_spec_lem. Qed.
+Print Assumptions grouped_spec.
 
 (* the three cases of the property *)
 Theorem label_cases : forall text inl labels, rv_labels text inl 0 [] None = POk labels ->
